@@ -664,6 +664,7 @@ type Chunk struct {
 	Off, Size int64
 	Dgst      string
 	COff      int64 // compressed offset of the stream holding it (-1: unknown)
+	Run       int   // the run of consecutive TOC data entries with that offset (what the pre-reader walks)
 }
 
 type File struct {
@@ -692,6 +693,8 @@ type Session struct {
 	Files []*File
 	Chs   []*Chunk
 	byKey map[string]*Chunk
+	// chunks by the compressed offset of their stream, in TOC (= stream) order
+	byStream map[int][]*Chunk
 	Open  *View // the view at open time (its TOC is the TOC actually used)
 	Cur   *View
 	Views []*View
@@ -732,7 +735,8 @@ func NewCache(k string) (cache.BlobCache, string, error) {
 // OpenSession opens the blob through the stack with `open` as the view at open time.  A nil
 // session with a nil error means the (altered) blob was refused at open time.
 func OpenSession(out *verifutil.Out, rnd *verifutil.Rand, st Stack, b *Blob, open *View, ckind string) (*Session, error) {
-	s := &Session{Out: out, Rnd: rnd, B: b, Open: open, Cur: open, CKind: ckind, byKey: map[string]*Chunk{}}
+	s := &Session{Out: out, Rnd: rnd, B: b, Open: open, Cur: open, CKind: ckind, byKey: map[string]*Chunk{},
+		byStream: map[int][]*Chunk{}}
 	var mu sync.Mutex
 	ext := open.Ext
 	s.Ext = func() []byte { mu.Lock(); defer mu.Unlock(); return ext }
@@ -772,10 +776,24 @@ func (s *Session) enumerate() error {
 		want[f.Name] = f.Data
 	}
 	coff := map[string]int64{}
-	if toc, _, err := s.B.parseTOC(s.Open.Blob, s.Open.Ext); err == nil && toc != nil {
-		for _, e := range toc.Entries {
-			if (e.Type == "reg" && e.Size > 0) || e.Type == "chunk" {
-				coff[chunkKey(strings.TrimPrefix(e.Name, "./"), e.ChunkOffset)] = e.Offset
+	ord := map[string]int{}
+	runOf := map[string]int{}
+	if toc, _, err := s.B.parseTOC(s.Open.Blob, s.Open.Ext); err == nil && toc != nil && len(toc.Entries) > 0 {
+		// estargz.Reader.initFields: a data entry starts a new run when its offset differs from
+		// the offset of the entry the current run started at.
+		run, top := 0, toc.Entries[0].Offset
+		for i, e := range toc.Entries {
+			if e.Type != "reg" && e.Type != "chunk" {
+				continue
+			}
+			if e.Offset != top {
+				run, top = run+1, e.Offset
+			}
+			if e.Type == "chunk" || e.Size > 0 {
+				k := chunkKey(strings.TrimPrefix(e.Name, "./"), e.ChunkOffset)
+				coff[k] = e.Offset
+				ord[k] = i
+				runOf[k] = run
 			}
 		}
 	}
@@ -852,9 +870,10 @@ func (s *Session) enumerate() error {
 			if cs <= 0 || co != off {
 				return fmt.Errorf("irregular chunk table of %q at %d: (%d,%d)", f.Name, off, co, cs)
 			}
-			c := &Chunk{Gid: len(s.Chs), File: f, Off: co, Size: cs, Dgst: dg, COff: -1}
+			c := &Chunk{Gid: len(s.Chs), File: f, Off: co, Size: cs, Dgst: dg, COff: -1, Run: -1}
 			if o, ok := coff[chunkKey(f.Name, co)]; ok {
 				c.COff = o
+				c.Run = runOf[chunkKey(f.Name, co)]
 			}
 			f.Chunks = append(f.Chunks, c)
 			s.Chs = append(s.Chs, c)
@@ -863,6 +882,16 @@ func (s *Session) enumerate() error {
 		}
 	}
 	s.Files = files
+	for _, c := range s.Chs {
+		if c.Run >= 0 {
+			s.byStream[c.Run] = append(s.byStream[c.Run], c)
+		}
+	}
+	for _, l := range s.byStream {
+		sort.SliceStable(l, func(i, j int) bool {
+			return ord[chunkKey(l[i].File.Name, l[i].Off)] < ord[chunkKey(l[j].File.Name, l[j].Off)]
+		})
+	}
 	return nil
 }
 
@@ -925,27 +954,35 @@ type preItem struct {
 	st byte
 }
 
-// Probe reads chunk c (and, as the pre-reader would, its stream neighbours) under the current view
-// straight from the metadata reader: no cache, no verification.
-func (s *Session) Probe(c *Chunk) (st byte, pre []preItem) {
-	fr, err := s.MR.OpenFileWithPreReader(c.File.ID, func(nid uint32, off, size int64, dg string, r io.Reader) error {
-		buf := make([]byte, size)
-		_, rerr := io.ReadFull(r, buf)
-		n := s.byKey[fmt.Sprintf("%d@%d", nid, off)]
-		if n != nil {
-			pre = append(pre, preItem{n, classify(buf, rerr, n.Dgst)})
-		}
-		return rerr
-	})
+// own classifies the bytes the decoders yield for chunk c alone under the current view: the stream
+// is decoded from its start to the end of c, straight from the metadata reader (no pre-reader, no
+// cache, no verification).
+func (s *Session) own(c *Chunk) byte {
+	fr, err := s.MR.OpenFile(c.File.ID)
 	if err != nil {
-		return 'f', pre
+		return 'f'
 	}
 	buf := make([]byte, c.Size)
 	_, err = fr.ReadAt(buf, c.Off)
 	if err != nil && err != io.EOF {
-		return 'f', pre
+		return 'f'
 	}
-	return classify(buf, nil, c.Dgst), pre
+	return classify(buf, nil, c.Dgst)
+}
+
+// Probe returns the classification of chunk c and of the other chunks stored in the same compressed
+// stream, in stream order (what estargz.fileReader.ReadAt hands to the pre-reader on a miss).
+func (s *Session) Probe(c *Chunk) (st byte, pre []preItem) {
+	st = s.own(c)
+	if c.Run < 0 {
+		return st, nil
+	}
+	for _, n := range s.byStream[c.Run] {
+		if n != c {
+			pre = append(pre, preItem{n, s.own(n)})
+		}
+	}
+	return st, pre
 }
 
 // StepStr is the driver's step for chunk c: "c:st[/n:st,...]".
@@ -1198,7 +1235,10 @@ func (s *Session) Skip() {
 
 // Prefetch = readAndCache of one chunk.
 func (s *Session) Prefetch(c *Chunk) bool {
-	st, _ := s.Probe(c)
+	if s.B.MinChunk > 0 { // the model's single-chunk prefetch has no stream neighbours
+		return false
+	}
+	st := s.own(c)
 	fr, err := s.MR.OpenFileWithPreReader(c.File.ID, func(nid uint32, off, size int64, dg string, r io.Reader) error {
 		e, _ := s.VR.ReadAndCache(nid, r, off, size, dg)
 		return e
@@ -1239,7 +1279,7 @@ func (s *Session) selection(sel map[int]bool) (map[int64]bool, []*Chunk) {
 func (s *Session) items(cs []*Chunk) string {
 	var l []string
 	for _, c := range cs {
-		st, _ := s.Probe(c)
+		st := s.own(c)
 		l = append(l, fmt.Sprintf("%d:%c", c.Gid, st))
 	}
 	return dash(strings.Join(l, ","))
